@@ -97,6 +97,24 @@ class World(SessionWorld):
         if self.pending_alloc is not None:
             self.prev_id = self.pending_alloc
             self.pending_alloc = None
+        if self.fail_this_send in ("with-nested-request", "plain"):
+            # this send() is going to fail (serialization / size limit).  Something observing the failure - a log
+            # observer, an error hook - may issue a request of its own before the exception reaches the caller.
+            mode = self.fail_this_send
+            self.fail_this_send = "nested-running"
+            if mode == "with-nested-request":
+                self.nested_call(None, sync_progress=False)
+            self.fail_this_send = "armed"
+
+    fail_this_send = None
+
+    def injected_send_failure(self, msg):
+        if self.fail_this_send == "armed":
+            self.fail_this_send = None
+            from autobahn.wamp.exception import SerializationError
+            self.run.fault("transport-send-fails")
+            return SerializationError("injected: cannot serialize %s" % type(msg).__name__)
+        return None
 
     def on_sent(self, msg):
         if self.reply_inside_send:
@@ -136,7 +154,7 @@ class World(SessionWorld):
         r2.opts = {"opt": "progress"}
         expect_id = self.next_id()
         n0 = len(self.t.sent)
-        self.run.log("app", "nested-call", r2.token, "inside a handler of", parent.token)
+        self.run.log("app", "nested-call", r2.token, "inside a handler of", parent.token if parent is not None else "a failing send()")
         if sync_progress:
             self.run.probe("call-issued-inside-progress-handler")
             self.sync_reply_for = r2
@@ -227,6 +245,11 @@ class World(SessionWorld):
         self.run.log("app", kind, r.token)
         self.pending_alloc = expect_id if kind != "cancel" else None
         self.reply_inside_send = kind != "cancel" and ch.flag("reply-to-earlier-request-inside-send", 0.12)
+        send_fails = kind in ("call", "publish", "subscribe", "register") and ch.flag("transport-send-fails", 0.07)
+        if send_fails:
+            self.reply_inside_send = False
+            self.fail_this_send = "with-nested-request" if ch.flag("request-issued-while-send-fails", 0.6) else "plain"
+            self.t.send_fail = self.injected_send_failure
         try:
             if kind == "call":
                 r.uri = "com.example.proc.%s" % r.token
@@ -342,11 +365,23 @@ class World(SessionWorld):
                 exp_marshal = [49, victim.id, {}]
                 r.kind = "cancel"
         except Exception as e:  # noqa
+            from autobahn.wamp.exception import SerializationError
+            if send_fails and isinstance(e, SerializationError) and "injected" in str(e):
+                # the documented outcome of a failing send(): the exception reaches the caller, the id is spent,
+                # nothing stays pending for it
+                self.run.probe("api-raised-injected-send-failure")
+                if len([m for m in self.t.sent[n0:] if not (self.claimed and id(m) in self.claimed)]):
+                    self.run.violate("C04.one-request", "failed-send-still-on-the-wire:%s" % kind, "")
+                return
             self.run.violate("C04.one-request", "api-raised:%s:%s" % (kind, type(e).__name__), repr(e))
             return
         finally:
             self.pending_alloc = None
             self.reply_inside_send = False
+            self.fail_this_send = None
+            self.t.send_fail = None
+        if send_fails:
+            self.run.violate("C04.one-request", "send-failure-swallowed:%s" % kind, "the transport's send() raised, the API call returned normally")
         r.fut = fut
         if fut is not None and kind != "cancel" and ch.flag("completion-callback-issues-call", 0.15):
             def chain(res, r=r):
